@@ -3,7 +3,7 @@
    linearizable w.r.t. that specification (results of Pending compared as sets). *)
 From Coq Require Import List NArith Bool Arith Lia Permutation.
 From Common Require Import Lock.
-From Conc Require Import Lin LockedObject.
+From Conc Require Import Lin LockedObject Composite.
 From C34 Require Import Model ModelConc Proofs ProofsHeap ProofsConc.
 Import ListNotations.
 Local Open Scope N_scope.
@@ -33,4 +33,30 @@ Proof.
   destruct (pq_linearizable mode Hx P c Hr Hq) as [l Hl].
   destruct (linearizable_sim m_fspec q_spec_sim R R_step_sim _ _ _ _ _ R_init Hl) as [q [Hl' HR]].
   exists l, q. split; assumption.
+Qed.
+
+(* ---- PopWithTimer as a composite of Pop calls ---- *)
+Definition q_fspec : qspec -> op -> res -> qspec -> Prop := fspec qspec op res q_step.
+
+(* a Pop that returns nil leaves the queue unchanged *)
+Lemma failed_pop_noop (e : @orec op res) :
+  o_op e = Pop -> o_res e = RNone -> noop qspec op res q_fspec e.
+Proof.
+  intros Ho Hr s1 s2 H. unfold q_fspec, fspec in H. rewrite Ho, Hr in H. simpl in H.
+  destruct (qbest s1) as [[i p]|]; inversion H. reflexivity.
+Qed.
+
+(* PopWithTimer = failed Pops followed by a last Pop whose result it returns: the history in which
+   the composite call replaces its sub-calls is linearizable when the one with the sub-calls is *)
+Theorem popwithtimer_composite (h subs : list (@orec op res)) (last c : @orec op res) :
+  linearizable q_fspec [] (h ++ last :: subs) ->
+  Forall (fun e => o_op e = Pop /\ o_res e = RNone) subs ->
+  o_op last = Pop -> o_op c = PopT -> o_res c = o_res last ->
+  o_call c <= o_call last -> o_ret last <= o_ret c ->
+  linearizable q_fspec [] (h ++ [c]).
+Proof.
+  intros HL Hs Hl Hc Hr H1 H2.
+  eapply composite_linearizable; eauto.
+  - rewrite Forall_forall in *. intros e He. destruct (Hs e He). apply failed_pop_noop; assumption.
+  - intros s1 s2 H. unfold q_fspec, fspec in *. rewrite Hl in H. rewrite Hc, Hr. exact H.
 Qed.
